@@ -11,7 +11,7 @@ from .. import histprops as HP
 from . import c12
 
 LEVEL = 'proof'
-NEEDS = ['TopoSort', 'TopoSortProofs', 'SFTopo', 'Extracted', 'SourceFacts', 'Bridge', 'BridgeProofs', 'Base', 'Names', 'Graph', 'GraphObs', 'GraphTS', 'GraphInv', 'GraphLemmas', 'GraphInvProofs', 'Queries', 'QueriesProofs']
+NEEDS = ['CorrTopoSort', 'TopoSort', 'TopoSortProofs', 'SFTopo', 'Extracted', 'SourceFacts', 'Bridge', 'BridgeProofs', 'Base', 'Names', 'Graph', 'GraphObs', 'GraphTS', 'GraphInv', 'GraphLemmas', 'GraphInvProofs', 'Queries', 'QueriesProofs']
 
 
 def time_ok(g):
@@ -61,6 +61,8 @@ def oracle(g, kind, op, code, before, after, ctx):
 
 
 def check(run, tier, seed):
+    from .. import topocorr
+    topocorr.exact_default_order(run, 'C13', tier, seed)
     rng = random.Random(seed + 3)
     HP.history_property(run, tier, seed, pid='C13', kinds=('TS',), oracle=oracle, n_quick=160, n_thorough=2500,
                         describe='Time-series histories (all edge types, lags of both signs, every route: add_edge / by pair / node and edge '
